@@ -87,7 +87,7 @@ def generate_dispatch(ov, arganal):
     def lookup_for(x):
         return ndb[arganal.lookup_for(x)]
 
-    for name in spr + spo + pr + po + kr:
+    for name in spr + spo + pr + po + kr + ko:
         ndb.register(name)
 
     mv = ndb.gensym(desired_name="method")
